@@ -254,32 +254,20 @@ impl Rule {
 
     pub(super) fn apply_parameters(&mut self) {
         if let Some(parameters) = self.parameters.clone() {
+            // parameters can be nested in collections (array and set elements, map keys and
+            // values): the substitution has to recurse, as it does for facts
             self.head.terms = self
                 .head
                 .terms
                 .drain(..)
-                .map(|t| {
-                    if let Term::Parameter(name) = &t {
-                        if let Some(Some(term)) = parameters.get(name) {
-                            return term.clone();
-                        }
-                    }
-                    t
-                })
+                .map(|t| t.apply_parameters(&parameters))
                 .collect();
 
             for predicate in &mut self.body {
                 predicate.terms = predicate
                     .terms
                     .drain(..)
-                    .map(|t| {
-                        if let Term::Parameter(name) = &t {
-                            if let Some(Some(term)) = parameters.get(name) {
-                                return term.clone();
-                            }
-                        }
-                        t
-                    })
+                    .map(|t| t.apply_parameters(&parameters))
                     .collect();
             }
 
